@@ -32,6 +32,7 @@ fn main() {
         "fuzz-expr" => fuzz::main(rest),
         "lex" => lex::main(rest),
         "tracker" => tracker::main(rest),
+        "fuzz-sched" => tracker::main_fuzz(rest),
         "consume" => counted::main(rest),
         "vars" => vars::main(rest),
         "valgrid" => valgrid::main(rest),
